@@ -59,12 +59,17 @@ def confirm(pid, k, root="/tmp/mut", outk=None):
     ok = (log["demo_pristine_rc"] == 0 and log["demo_patched_rc"] != 0 and passed >= 239 + 6 and failed == known)
     print(pid, k, "confirmed" if ok else "NOT confirmed", json.dumps(log)[:400])
     if ok:
-        d = os.path.join(SEEDED, "%s-%s" % (pid, outk or k))
+        byfile = not re.fullmatch(r"C\d\d", pid)          # round 6: sub-agents were given a source file, not a property
+        d = os.path.join(SEEDED, ("F-%s-%s" if byfile else "%s-%s") % (pid, outk or k))
         os.makedirs(d, exist_ok=True)
         shutil.copy(patch, os.path.join(d, "patch.diff"))
         shutil.copy(dm, os.path.join(d, "demo.rs"))
         readme = open(out + "/README.md").read() if os.path.exists(out + "/README.md") else ""
-        meta = {"property": pid, "source": "independent sub-agent given only the property text and a scratch worktree",
+        props = []
+        if byfile:
+            m = re.search(r"^#+\s*Change\s*%s\b.*?\n(?:.*\n){0,3}?\s*\**Properties\**\s*:\s*\**\s*(.*)$" % k, readme, flags=re.M)
+            props = re.findall(r"C\d\d", m.group(1)) if m else []
+        meta = {"property": (props[0] if props else pid), "properties": props, "change_no": int(k), "source": "independent sub-agent given only the property text and a scratch worktree",
                 "confirmed": log, "what_i_ran": ["git apply patch.diff (scratch worktree)", "cargo test --offline --no-fail-fast (239 lib + 6 doc tests pass, the 2 known failures unchanged)",
                                                  "cargo test --offline --test demo (fails with the patch, passes without)"],
                 "agent_readme": readme[:6000], "caught_by": {}}
@@ -75,7 +80,7 @@ def confirm(pid, k, root="/tmp/mut", outk=None):
 def run(name, checks=None, tier="quick"):
     d = os.path.join(SEEDED, name)
     meta = json.load(open(os.path.join(d, "meta.json")))
-    checks = checks or [meta["property"]]
+    checks = checks or (meta.get("properties") or [meta["property"]])
     rc, o = sh(["git", "-C", "/repo", "status", "--porcelain", "--untracked-files=no"])
     if o.strip():
         print("refusing: /repo has local modifications"); sys.exit(2)
@@ -119,4 +124,5 @@ if __name__ == "__main__":
         for n in sorted(os.listdir(SEEDED)):
             if os.path.exists(os.path.join(SEEDED, n, "meta.json")):
                 prev = json.load(open(os.path.join(SEEDED, n, "meta.json"))).get("caught_by", {})
-                run(n, sorted(set([n.split("-")[0]] + list(prev))))
+                m0 = json.load(open(os.path.join(SEEDED, n, "meta.json")))
+                run(n, sorted(set((m0.get("properties") or [m0["property"]]) + list(prev))))
